@@ -30,6 +30,10 @@ func H_C16_mask() {
 	// masked values: strings; for Any and Custom also null / number / bool (Type[string] needs strings)
 	maskedVal := func(label string) string {
 		if matcherKind == 1 {
+			// a masked string that itself looks like the placeholder Type writes
+			if vxrt.Bool(label + "-placeholder-shaped") {
+				return `"<Type:float64>"`
+			}
 			return vxSymString(label, n)
 		}
 		if matcherKind == 3 { // Type[[]any] needs lists: of any element kinds, or empty
@@ -56,10 +60,24 @@ func H_C16_mask() {
 	}
 	doc1 := `{"a":` + a1 + `,"m":` + m1 + `}`
 	doc2 := `{"a":` + a2 + `,"m":` + m2 + `}`
+	// Any with two paths that differ only in letter case, both present
+	caseTwin := false
+	if matcherKind == 0 {
+		caseTwin = vxrt.Bool("case-twin-path")
+	}
+	if caseTwin {
+		doc1 = `{"M":` + maskedVal("masked-twin-1") + `,"a":` + a1 + `,"m":` + m1 + `}`
+		doc2 = `{"M":` + maskedVal("masked-twin-2") + `,"a":` + a2 + `,"m":` + m2 + `}`
+	}
 	var mk func() match.JSONMatcher
 	switch matcherKind {
 	case 0:
-		mk = func() match.JSONMatcher { return match.Any("m") }
+		mk = func() match.JSONMatcher {
+			if caseTwin {
+				return match.Any("M", "m")
+			}
+			return match.Any("m")
+		}
 	case 1:
 		mk = func() match.JSONMatcher { return match.Type[string]("m") }
 	case 3:
